@@ -90,8 +90,15 @@ def nan_problems(kv):
     return out
 
 
+def safe_frac(x):
+    try:
+        return frac(x)
+    except (ValueError, OverflowError, TypeError):
+        return repr(x)          # NaN, inf, complex: not a number of the knot line
+
+
 def observe(kv):
-    return dict(U=tuple(frac(x) for x in kv), degree=kv.degree, npts=kv.npts)
+    return dict(U=tuple(safe_frac(x) for x in kv), degree=kv.degree, npts=kv.npts)
 
 
 def model_obs(m):
